@@ -273,10 +273,10 @@ func (t gjTemplate) coords(lens []int) string {
 		if lens[i] < 0 {
 			return "null"
 		}
-		vals := []float64{t.xy[i][0], t.xy[i][1], float64(10 + i), float64(100 + i), float64(1000 + i)}
+		vals := []float64{t.xy[i][0], t.xy[i][1], float64(10 + i), float64(100 + i), float64(1000 + i), 6, 7, 8, 9, 10, 11, 12}
 		// closing vertex of a ring must repeat the first one exactly
 		if (t.typ == "Polygon" || t.typ == "MultiPolygon") && i == len(t.xy)-1 {
-			vals = []float64{t.xy[0][0], t.xy[0][1], 10, 100, 1000}
+			vals = []float64{t.xy[0][0], t.xy[0][1], 10, 100, 1000, 6, 7, 8, 9, 10, 11, 12}
 		}
 		var parts []string
 		for k := 0; k < lens[i]; k++ {
@@ -412,7 +412,8 @@ func c06Doc(r *engine.Run, doc string, accept bool, want *refcodec.Node, note st
 
 func c06Documents(r *engine.Run) {
 	n := 0
-	lengths := []int{0, 1, 2, 3, 4, 5}
+	// 8 and 9 elements: beyond any small fixed-width set a decoder might keep the seen lengths in
+	lengths := []int{0, 1, 2, 3, 4, 5, 8, 9}
 	for _, t := range gjTemplates {
 		np := len(t.xy)
 		lens := make([]int, np)
@@ -716,7 +717,7 @@ func c06Features(r *engine.Run) {
 }
 
 func c06Main(r *engine.Run) {
-	r.Rule = "valid geometries: structural shapes S(d,w) × 4 coordinate types × finite float classes (polygons as cell squares under 8 float frames) — output parsed by encoding/json and walked against the RFC 7946 schema with bit-exact ordinates, round trip compared with a 30-line loss model; documents: every assignment of position lengths 0..5 for 6 types, member order, collection siblings, structural deviations, nulls; features: id × properties × foreign members × geometry and collections of 0..2. non-trivial = geometries with a forced loss or an empty member, accepted documents, features with id/foreign members"
+	r.Rule = "valid geometries: structural shapes S(d,w) × 4 coordinate types × finite float classes (polygons as cell squares under 8 float frames) — output parsed by encoding/json and walked against the RFC 7946 schema with bit-exact ordinates, round trip compared with a 30-line loss model; documents: every assignment of position lengths {0..5, 8, 9} for 6 types, member order, collection siblings, structural deviations, nulls; features: id × properties × foreign members × geometry and collections of 0..2. non-trivial = geometries with a forced loss or an empty member, accepted documents, features with id/foreign members"
 	d, w := 2, 2
 	offs := []int{0, 3, 9}
 	if r.Thorough() {
